@@ -21,7 +21,6 @@ theorem small_render_cases (w : Small) (h : w.val < 100) :
     left
     refine ⟨hs.2, ?_⟩
     simp only [hs.1, hs.2, decide_true, Bool.and_self, if_true, digit_eq w.val hs.2]
-    rfl
   · right
     simp only [hs, Bool.false_eq_true, if_false]
     exact pad2_eq w.val h
@@ -288,10 +287,10 @@ theorem run_monthday_selector_none_head (inp : List Char) (h : ∀ c r, inp = c 
   simp [g_monthday_selector, peg, run_md_none_head inp h]
 
 theorem not_MdStartChar_w : ¬ MdStartChar 'w' := by
-  simp [MdStartChar, MonthLetter]; decide
+  simp [MdStartChar, MonthLetter]
 
 theorem not_MdStartChar_space : ¬ MdStartChar ' ' := by
-  simp [MdStartChar, MonthLetter]; decide
+  simp [MdStartChar, MonthLetter]
 
 theorem run_monthday_selector_none_week (w : WeekSel) (rest : List Char) :
     run g_monthday_selector false (w.render ++ rest) = none := by
